@@ -1,7 +1,7 @@
 CONSTANTS
   Nets <- MCNetsOne
-  Durations <- MCDurRel
-  Configs <- MCCfgShortFlipped
+  Durations <- MCDurSmall
+  Configs <- MCCfgDefault
   CheckPeriod = 5
   SendsPerSec = 15
   Slack = 1
